@@ -433,7 +433,7 @@ def run_case_detsched(item):
     res = detsched.run(root, st, max_steps=200000, stall_timeout=120)
     ev = [e for e in strip(res.trace) if e.get('ev') == 'Acc']
     rec = {'id': item['id'], 'p': header(sc), 'sc': sc, 'ev': ev, 'status': 'ok', 'seed': seed, 'detsched': True}
-    if res.status != 'ok' or res.exc is not None:
+    if res.status != 'ok' or res.exc is not None or res.thread_errors:
         rec.update(status='hang' if res.status in ('deadlock', 'livelock') else res.status, acc=state['acc'],
                    detail=f'{res.status}: {res.detail}', waitmap=res.waitmap,
                    exc=repr(res.exc) if res.exc is not None else None, thread_errors=res.thread_errors)
